@@ -23,7 +23,34 @@ ATTR_NAMES = ["link_weights", "w"]     # the library's own example name first
 
 
 def edges_of(n, directed, mask):
+    """`mask` is the bit mask of domains.pairs() or an explicit list of links
+    [[i, j], ...] (scale family; undirected links in any orientation)."""
+    if isinstance(mask, (list, tuple)):
+        es = {(int(a), int(b)) if directed else
+              (min(int(a), int(b)), max(int(a), int(b))) for a, b in mask}
+        return sorted(es)
     return [p for k, p in enumerate(pairs(n, directed)) if mask >> k & 1]
+
+
+def adjacency_of(n, directed, mask):
+    if not isinstance(mask, (list, tuple)):
+        return adj(n, directed, mask)
+    A = np.zeros((n, n), dtype=np.int8)
+    for (i, j) in edges_of(n, directed, mask):
+        A[i, j] = 1
+        if not directed:
+            A[j, i] = 1
+    return A
+
+
+def node_weights_of(n, wk):
+    """The weight alphabet of domains.WEIGHTS, continued periodically with
+    unequal dyadic values for networks with more than 8 nodes."""
+    if n <= 8 or wk == 0:
+        return weights(n, wk)
+    if wk == 1:
+        return [0.5 + ((7 * i) % 11) / 4.0 for i in range(n)]
+    return [2.0 ** ((i % 7) - 3) for i in range(n)]
 
 
 def attr_matrix(A, directed, variant):
@@ -38,9 +65,9 @@ def attr_matrix(A, directed, variant):
 
 
 def spec(n, directed, mask, wk, na):
-    A = adj(n, directed, mask)
+    A = adjacency_of(n, directed, mask)
     E = edges_of(n, directed, mask)
-    w = weights(n, wk)
+    w = node_weights_of(n, wk)
     wv = [1.0] * n if w is None else [float(x) for x in w]
     npairs = n * (n - 1) if directed else n * (n - 1) / 2
     return {
@@ -53,6 +80,53 @@ def spec(n, directed, mask, wk, na):
         "attrs": {ATTR_NAMES[k]: attr_matrix(A, directed, k + 1).tolist()
                   for k in range(na if E else 0)},
     }
+
+
+def structured(kind, n, directed=False):
+    """Larger structured graphs of the scale families, as link lists.
+
+    ring-chords        ring 0..n-1, a chord i -> i+5 from every third node and
+                       three extra links that touch the last nodes
+    ring-chords-tail   the same on the first n-3 nodes, last 3 nodes isolated
+    two-communities    two ring-with-chords halves joined by three bridges
+    disconnected-pair  two ring-with-chords components on the even / the odd
+                       labels (interleaved), no link between them
+    components         components of 9, 12, 15 and 23 nodes with interleaved
+                       labels plus isolated nodes (needs n >= 62)
+    Directed graphs get the arcs i -> j of the list plus a back arc for every
+    fourth link, so that they are asymmetric."""
+    def ring(nodes, step=5):
+        k = len(nodes)
+        es = [(nodes[i], nodes[(i + 1) % k]) for i in range(k)]
+        if k > step + 1:
+            es += [(nodes[i], nodes[(i + step) % k]) for i in range(0, k, 3)]
+        return es
+    if kind == "ring-chords":
+        es = ring(list(range(n))) + [(n - 1, n // 2), (n - 2, 0),
+                                     (n - 1, n - 3)]
+    elif kind == "ring-chords-tail":
+        m = n - 3
+        es = ring(list(range(m))) + [(m - 1, m // 2)]
+    elif kind == "two-communities":
+        h = n // 2
+        es = ring(list(range(h)), 3) + ring(list(range(h, n)), 4) + [
+            (0, h), (h - 1, n - 1), (h // 2, h + 2)]
+    elif kind == "disconnected-pair":
+        es = ring(list(range(0, n, 2)), 3) + ring(list(range(1, n, 2)), 4)
+    elif kind == "components":
+        sizes, start, es = (9, 12, 15, 23), 0, []
+        labels = [(i * 37) % n for i in range(n)] if n % 37 else \
+            list(range(n))
+        assert len(set(labels)) == n and n >= sum(sizes)
+        for k in sizes:
+            es += ring(labels[start:start + k], 4)
+            start += k
+    else:
+        raise ValueError(kind)
+    es = sorted({(min(a, b), max(a, b)) for a, b in es if a != b})
+    if directed:
+        es = [(a, b) for a, b in es] + [(b, a) for a, b in es[::4]]
+    return [list(e) for e in es]
 
 
 def _try(f):
@@ -164,6 +238,15 @@ def diff(sp, o, weights=None, wtol=None):
 def _dist(A, length=None):
     n = len(A)
     INF = float("inf")
+    if n > 24:
+        # same Floyd-Warshall recursion, one numpy row/column update per k
+        Aa = np.asarray(A)
+        D = np.where(Aa != 0, 1.0 if length is None else
+                     np.asarray(length, dtype=float), INF)
+        np.fill_diagonal(D, 0.0)
+        for k in range(n):
+            D = np.minimum(D, D[:, k, None] + D[None, k, :])
+        return D.tolist()
     D = [[0.0 if i == j else
           ((length[i][j] if length is not None else 1.0) if A[i][j] else INF)
           for j in range(n)] for i in range(n)]
